@@ -473,8 +473,14 @@ func (tv Timespan) CanSerializeAsString() bool {
 	return true
 }
 
+// SerializationString keeps the whole value: sign, total seconds and a nine digit fraction, which
+// the default format %S.%-N parses back exactly (String() is whole seconds only).
 func (tv Timespan) SerializationString() string {
-	return tv.String()
+	sign, u := ``, uint64(tv)
+	if tv < 0 {
+		sign, u = `-`, -u
+	}
+	return fmt.Sprintf(`%s%d.%09d`, sign, u/NsecsPerSec, u%NsecsPerSec)
 }
 
 func (tv Timespan) String() string {
